@@ -12,6 +12,7 @@ import TboxModel.C19.Orig
 import TboxModel.C19.SIntProofs
 import TboxModel.C19.SerProofs
 import TboxModel.C19.B64Proofs
+import TboxModel.C19.B64SpecProofs
 import TboxModel.C19.CrcProofs
 import TboxModel.C19.UrlHexProofs
 import TboxModel.C19.Md5Proofs
@@ -369,6 +370,59 @@ theorem C19_b64_roundtrip (x : List UInt8) (hx : x ≠ []) :
     rw [this]; simp
 
 example : ([65, 66] : List UInt8) ≠ [] := by decide
+
+/-- `C19_b64_eq_spec`: for EVERY non-empty byte string the encoder state machine of the source (either overload) produces
+exactly the RFC 4648 encoding defined arithmetically in Spec.lean (24-bit groups → four 6-bit digits of the standard
+alphabet, '=' padding) -/
+theorem C19_b64_eq_spec (x : List UInt8) (hx : x ≠ []) :
+    B64.encodeStr x = .ok (Spec.b64Encode x)
+      ∧ ∀ cap, B64.encodeLength x.length ≤ cap → B64.encodeBuf x cap = .ok ((Spec.b64Encode x).length, Spec.b64Encode x) := by
+  have he : x.isEmpty = false := by cases x <;> simp_all
+  have hs := B64.encGo_eq_spec x 0
+  have hl := B64.encGo_s0_length x 0
+  refine ⟨by simp [B64.encodeStr, he, hs], ?_⟩
+  intro cap hc
+  have hpos : 0 < B64.encodeLength x.length := by
+    cases x with
+    | nil => exact absurd rfl hx
+    | cons a r => simp only [B64.encodeLength, List.length_cons]; omega
+  unfold B64.encodeBuf
+  have hc0 : cap ≠ 0 := by omega
+  simp only [he, hc0, Bool.false_eq_true, false_or, if_false]
+  rw [if_neg (by omega), hs]
+  unfold storeAll
+  have : (Spec.b64Encode x).length ≤ cap := by rw [← hs, hl]; simpa [B64.encodeLength] using hc
+  simp [this]
+
+/-- `C19_b64_rejects`: if any character before the first '=' is outside the Base64 alphabet (any of the other 191 byte
+values), the buffer decoder returns 0 and stores nothing for EVERY capacity, and the vector decoder returns 0 -/
+theorem C19_b64_rejects (s : List UInt8) (h : B64.HasBad s) :
+    (∀ cap, B64.decodeBuf s cap = .ok (0, [])) ∧ ∃ out, B64.decodeVec s = .ok (0, out) := by
+  constructor
+  · intro cap
+    unfold B64.decodeBuf
+    by_cases h4 : s.length % 4 ≠ 0
+    · rw [if_pos h4]
+    · rw [if_neg h4]
+      by_cases hc : B64.decodeLength s > cap
+      · rw [if_pos hc]
+      · rw [if_neg hc]
+        have hB := B64.nw_pre_le_decodeLength s (by omega)
+        obtain ⟨res, e, _⟩ := B64.decGo_ok cap s 0 0 [] (by simp [B64.nw]) (by simp only [Nat.zero_add]; omega)
+        have := B64.decGo_reject cap s 0 0 [] res h e
+        subst this
+        rw [e]; rfl
+  · unfold B64.decodeVec
+    by_cases h0 : B64.decodeLength s = 0
+    · simp only [h0, if_true]; exact ⟨[], rfl⟩
+    · simp only [h0, if_false]
+      obtain ⟨⟨b, o⟩, e⟩ := B64.decVecGo_ok s 0 0 []
+      have := B64.decVecGo_reject s 0 0 [] o b h e
+      subst this
+      rw [e]; exact ⟨o, rfl⟩
+
+example : B64.HasBad [65, 42, 65, 65] := ⟨42, by decide, by decide⟩
+example : B64.HasBad [65, 0x80, 61, 61] := ⟨0x80, by decide, by decide⟩
 
 /-! ## 6. CRC and checksums equal the published definitions, for every byte string and seed -/
 /-- `C19_crc_eq_bitwise`: the table-driven CRC-32 and CRC-16 loops of crc.cpp (with the tables as they are in
